@@ -129,6 +129,32 @@ func indexCases(r *core.Run) {
 			got, ok := okBytes(r.Do(line))
 			r.Check(ok && bytes.Equal(got, m), "read-back", "a genuine searchable value does not decrypt to its plaintext: "+strings.Fields(line)[0])
 		}
+		// the same plaintext arriving ALREADY protected for this client (AcraWriter / a previous write: the value
+		// is a container the registry handler recognises): it is kept as it is, and its blind index is the
+		// index of the PLAINTEXT – the same one a write in clear gets, so a search finds both rows
+		for _, preKind := range []string{"struct", "block"} {
+			pre, okPre := env.Protect(r, preKind, w.kv, m)
+			if !okPre || !envelopeLike(r, pre) {
+				continue
+			}
+			r.Tag("plain:pre-encrypted-" + preKind)
+			sp, okp := w.encrypt(r, kind, pre)
+			if !r.Check(okp && len(sp) > 33, "encrypt-failed", "searchable encryption of a value that is already protected for the client failed") {
+				continue
+			}
+			r.Check(core.Hex(sp[:33]) == h, "index-of-pre-encrypted-value-differs", fmt.Sprintf("a %s-protected value written to a searchable column carries a blind index that is not the index of its plaintext: the same plaintext written in clear and written pre-encrypted get different indexes", preKind))
+			r.Check(bytes.Equal(sp[33:], pre), "pre-encrypted-value-changed", "a value that was already protected was not stored as it arrived behind its blind index")
+			for _, line := range []string{
+				fmt.Sprintf("C09.hashproc %s %s", w.toks(), core.Hex(sp)),
+				fmt.Sprintf("C09.tr.decrypt %s %s %s", preKind, w.toks(), core.Hex(sp)),
+			} {
+				got, ok := okBytes(r.Do(line))
+				r.Check(ok && bytes.Equal(got, m), "read-back", "a searchable value written pre-encrypted does not decrypt to its plaintext: "+strings.Fields(line)[0])
+			}
+			o := r.Do(fmt.Sprintf("C09.columns %s %s", w.toks(), core.Hex(sp)))
+			f := strings.Fields(o)
+			r.Check(len(f) == 3 && f[0] == "ok" && f[2] == core.Hex(m), "read-back", "the proxy chain does not hand the owner the plaintext of a searchable value that was written pre-encrypted: "+trunc(o))
+		}
 		// damaged index: never delivered as valid plaintext
 		for j := 0; j < 4; j++ {
 			bad := append([]byte{}, s1...)
